@@ -92,6 +92,26 @@ PRIMS = {
     "std::fs::write": ("write", 0),
     "nomt::sys::linux::falloc_zero_file": ("resize", 0),
 }
+RAW_MODIFIERS = {"fallocate": "resize", "fallocate64": "resize", "posix_fallocate": "resize", "posix_fallocate64": "resize", "ftruncate": "resize", "ftruncate64": "resize", "pwrite": "write", "pwrite64": "write", "pwritev": "write", "pwritev2": "write", "write": "write", "writev": "write", "copy_file_range": "write", "sendfile": "write"}
+
+
+def _const_int(body, op, depth=0):
+    if op.get("k") == "const":
+        v = op.get("int")
+        return int(v) if v is not None else None
+    if op.get("k") in ("copy", "move") and not op["pl"].get("p") and depth < 4:
+        ds = body.defs().get(op["pl"]["l"], [])
+        if len(ds) == 1 and ds[0][2] == "assign":
+            rv = ds[0][3]["rv"]
+            if rv["k"] == "use":
+                return _const_int(body, rv["op"], depth + 1)
+            if rv["k"] == "bin" and rv["op"] in ("BitOr", "BitAnd", "Add"):
+                a, b = _const_int(body, rv["a"], depth + 1), _const_int(body, rv["b"], depth + 1)
+                if a is not None and b is not None:
+                    return {"BitOr": a | b, "BitAnd": a & b, "Add": a + b}[rv["op"]]
+    return None
+
+
 # any other std call on a File that can modify it fails closed (see unknown_file_calls)
 FILE_READONLY_OK = re.compile(
     r"(::metadata|::try_clone|::as_raw_fd|::as_fd|::read_exact_at|::read_at|::read_exact|::read$|::seek|::open$|::deref|::clone|::as_ref|::borrow|::fmt|::into_raw_fd|::drop|::new|::from|::into|::read_to_end|::stream_position|::rewind|::by_ref|::take|::bytes)"
@@ -238,6 +258,34 @@ def collect_events(facts):
                 classes = {"?"}
             for cls in sorted(classes):
                 events.append(Event(kind, cls, body, b, len(body.stmts(b)), t.get("ln"), c, why))
+        # raw system calls that modify a file through a descriptor taken from a `File` (`libc::fallocate(file.as_raw_fd(), ..)`).
+        # The I/O workers (nomt::io) act on descriptors carried by commands - those writes are the IoKind events below - and
+        # nomt::sys wraps primitives that are listed by name.
+        if not body.id.startswith(("nomt::io::", "nomt::sys::")):
+            for b, t in body.calls():
+                c = t.get("callee") or ""
+                if not c.startswith("libc::") or body.is_cleanup(b) or not t["args"]:
+                    continue
+                m = c.rsplit("::", 1)[-1]
+                if m not in RAW_MODIFIERS:
+                    continue
+                kind = RAW_MODIFIERS[m]
+                if m.startswith(("fallocate", "posix_fallocate")) and len(t["args"]) > 1:
+                    mode = _const_int(body, t["args"][1])
+                    # punching / zeroing / collapsing a range destroys what is stored there; a mode that cannot be evaluated is
+                    # treated the same way (fail closed)
+                    if mode is None or (mode & 0x3A):
+                        kind = "write"
+                fop = None
+                for r in trace(body, t["args"][0]):
+                    if r.kind in ("call", "via") and str(r.what).endswith("as_raw_fd") and r.obj is not None and r.obj.get("args"):
+                        fop = r.obj["args"][0]
+                classes, why = classify_file_operand(facts, body, fop) if fop is not None else (set(), [])
+                if not classes:
+                    unclassified.append((body.id, c, t.get("ln")))
+                    classes = {"?"}
+                for cls in sorted(classes):
+                    events.append(Event(kind, cls, body, b, len(body.stmts(b)), t.get("ln"), c, why))
         # async page writes: IoKind::Write* aggregates
         for b in range(body.n):
             if body.is_cleanup(b):
